@@ -73,7 +73,7 @@ class HWrap:
             col = items.field(self.field)
             if col is not None:
                 e["ordered"] = np.argsort(col).tolist()
-                e["col"] = _ints(col)
+                e["col"] = _ints(col, self.field == "timestamp")
         self.calls.append(e)
         out = self.inner(items)
         if self.rec is not None and len(self.rec.log) > k0:
@@ -82,12 +82,16 @@ class HWrap:
         return out
 
 
-def _ints(col):
+def _ints(col, times=False):
     a = np.asarray(col)
     if a.dtype.kind == "M":
         return a.astype("datetime64[ns]").astype("int64").tolist()
-    if a.dtype.kind == "f":
+    if a.dtype.kind == "f" and not times:
         return [_attr(x) for x in a.tolist()]
+    if a.dtype.kind == "f":
+        # pandas widens an integer time column to float when frames without it are concatenated
+        # (test_df of a collection with empty lists); the value must still be the stored integer
+        return [int(x) if float(x).is_integer() else f"{Fraction(float(x)).numerator}/{Fraction(float(x)).denominator}" for x in a.tolist()]
     return [int(x) for x in a.tolist()]
 
 
@@ -112,7 +116,16 @@ def build_dataset(data):
     elif data["tcol"] == "ts":
         d["timestamp"] = pd.to_datetime(np.array([r[3] for r in rows], dtype=np.int64), unit="ns")
     df = pd.DataFrame(d)
-    return lk.from_interactions_df(df)
+    sp_ = data.get("space")
+    if sp_ is None:
+        return lk.from_interactions_df(df)
+    # large identifier space: entity tables declared up front (ids 1..n), few interaction records
+    assert ids == "int"
+    b = DatasetBuilder("c05-space")
+    b.add_entities("user", np.arange(1, sp_["users"] + 1))
+    b.add_entities("item", np.arange(1, sp_["items"] + 1))
+    b.add_interactions("rating", df, entities=["user", "item"], default=True)
+    return b.build()
 
 
 def frame_rows(df, data):
@@ -123,7 +136,7 @@ def frame_rows(df, data):
     us = [_uid(x, ids) for x in df["user_id"].tolist()]
     its = [_uid(x, ids) for x in df["item_id"].tolist()]
     ra = [_attr(x) for x in df["rating"].tolist()] if "rating" in df.columns else [None] * len(us)
-    ts = _ints(df["timestamp"]) if "timestamp" in df.columns else [0] * len(us)
+    ts = _ints(df["timestamp"], True) if "timestamp" in df.columns else [0] * len(us)
     return sorted(([u, i, a, t] for u, i, a, t in zip(us, its, ra, ts)), key=lambda r: (r[0], r[1], str(r[2]), r[3]))
 
 
@@ -133,7 +146,7 @@ def list_rows(u, il, data):
     ra = il.field("rating")
     ts = il.field("timestamp")
     ra = [_attr(x) for x in np.asarray(ra).tolist()] if ra is not None else [None] * len(its)
-    ts = _ints(ts) if ts is not None else [0] * len(its)
+    ts = _ints(ts, True) if ts is not None else [0] * len(its)
     return [[u, i, a, t] for i, a, t in zip(its, ra, ts)]
 
 
@@ -266,7 +279,7 @@ def _stored(full, data):
     us = [_uid(x, ids) for x in full["user_id"].tolist()]
     its = [_uid(x, ids) for x in full["item_id"].tolist()]
     ra = [_attr(x) for x in full["rating"].tolist()]
-    ts = _ints(full["timestamp"]) if "timestamp" in full.columns else [0] * len(us)
+    ts = _ints(full["timestamp"], True) if "timestamp" in full.columns else [0] * len(us)
     return [[u, i, a, t] for u, i, a, t in zip(us, its, ra, ts)]
 
 
